@@ -42,6 +42,16 @@ Fixpoint run_pkts_regs (need nenv : nat) (st : rxs) (ps0 : Z) (idx : Z) (regs : 
     (es, sz) :: (if existsb is_fatal es then [] else run_pkts_regs need' nenv' st1 sz (idx + 1) regs r)
   end.
 
+(* the same without stopping at a parse error: the reader goroutine keeps routing packets to the channel *)
+Fixpoint run_pkts_cont (need nenv : nat) (st : rxs) (ps0 : Z) (ps : list packet_in) : list (list ev * Z) :=
+  match ps with
+  | [] => []
+  | p :: r =>
+    let '(es, st1) := rx_packet need nenv st p in
+    let sz := size_after ps0 es in
+    (es, sz) :: run_pkts_cont need nenv st1 sz r
+  end.
+
 Definition out_tree (o : list (list ev * Z)) : tree :=
   TL (map (fun x => TL [TL (map ev_tree (canon (fst x))); TI (snd x)]) o).
 
@@ -108,7 +118,8 @@ Definition run_call (q : list dpkg) (errs : nat) (c : tree) : tree * list dpkg *
     end
   else
     let cb := if kind =? 1 then call_cb (t_int (t_nth 1 c)) (t_int (t_nth 2 c)) else None in
-    match until (S (S (length q + errs))) q errs true cb O [] with
+    let wait := negb (t_int (t_nth 3 c) =? 1) in                 (* 4th element: called with wait = false *)
+    match until (S (S (length q + errs))) q errs wait cb O [] with
     | (u, r, e) => (ures_tree u, r, e)
     end.
 
@@ -188,6 +199,9 @@ Definition rx_fn_run (fn : Z) (i : tree) : tree :=
   | 12 =>
     TL (run_rounds (Z.to_nat (t_int (t_nth 0 i))) (Z.to_nat (t_int (t_nth 1 i))) rx_init [] O (t_list (t_nth 2 i)))
   | 13 => writefail_run i
+  | 15 =>
+    out_tree (run_pkts_cont (Z.to_nat (t_int (t_nth 0 i))) (Z.to_nat (t_int (t_nth 1 i))) rx_init (t_int (t_nth 2 i))
+                            (map packet_of_tree (t_list (t_nth 3 i))))
   | 14 =>
     let need := Z.to_nat (t_int (t_nth 0 i)) in
     let nenv := Z.to_nat (t_int (t_nth 1 i)) in
@@ -216,6 +230,9 @@ Definition rx_fn_spec (fn : Z) (i o : tree) : bool :=
     is_prefix_tree got want && is_prefix_tree wantk got && (length got =? length wantk)%nat && (t_int (t_nth 2 o) =? 1)
   | 12 => forallb (fun io => round_drained_ok (fst io) (snd io)) (combine (t_list (t_nth 2 i)) (t_list o))
   | 13 => writefail_spec i o
+  | 15 =>
+    (* C10 at the channel level: whatever follows a parse error, no packet makes the channel panic or block (event (7 -1)) *)
+    negb (existsb (fun pk => existsb (fun e => tree_eqb e (TL [TI 7; TI (-1)])) (t_list (t_nth 0 pk))) (t_list o))
   | 14 =>
     (* every hook registered so far - and no other - is called exactly once per delivered message / member: the events of
        the model, whose per-package shape is C11_events_of_a_package, with the hook counts in force at each packet *)
